@@ -191,8 +191,6 @@ func scenariosB(quick bool) ([]ScB, []gosched.Bounds) {
 	add(apart, 2, 2)
 	add(ScB{Name: "four-polls-two-keys-busy(S1,S2,S1,S2)", Clients: 1, Polls: []string{"S1", "S2", "S1", "S2"}, MaxTry: 2, Timeout: 2 * time.Second}, 0, 1)
 	add(ScB{Name: "four-polls-two-keys-busy(S1,S2,S1,S2)", Clients: 1, Polls: []string{"S1", "S2", "S1", "S2"}, MaxTry: 2, Timeout: 2 * time.Second}, 1, 0)
-	add(ScB{Name: "two-polls-2-clients(S1,S2)", Clients: 2, Polls: []string{"S1", "S2"}, Sleep: true, MaxTry: 2, Timeout: 3 * time.Second}, 0, 1)
-	add(ScB{Name: "two-polls-2-clients(S1,S2)", Clients: 2, Polls: []string{"S1", "S2"}, Sleep: true, MaxTry: 2, Timeout: 3 * time.Second}, 1, 0)
 	return scs, bs
 }
 
